@@ -46,14 +46,14 @@ def gen_cases(seed, tier):
         dict(ns=33000, nbatch=6144, workers=5, n=96), dict(ns=26000, nbatch=4096, workers=3, n=96), dict(ns=15000, nbatch=16384, workers=4, n=64),
         dict(ns=30000, nbatch=8192, workers=2, n=384), dict(ns=22000, nbatch=6144, workers=7, n=64),
     ]
-    k = 8 if tier == "quick" else 60
+    k = 8 if tier == "quick" else 160
     for i in range(k):
         if i < len(base):
             c = dict(base[i])
         else:
             c = dict(ns=int(rng.integers(12000, 90001)), nbatch=int(rng.choice([4096, 6144, 8192, 16384])), workers=int(rng.integers(1, 9)),
                      n=int(rng.choice([64, 96, 96, 384])))
-        c.update(cls="sched", seed=seed * 1000 + i, opt=i % 6, _w=6 + c["ns"] / 10000 * (c["n"] / 96))
+        c.update(cls="sched", seed=seed * 1000 + i, opt=i % 7, _w=6 + c["ns"] / 10000 * (c["n"] / 96))
         cases.append(c)
     for i in range(2 if tier == "quick" else 10):
         cases.append(dict(cls="loky", ns=int(rng.integers(14000, 40000)), nbatch=int(rng.choice([4096, 8192])), n=64, seed=seed * 1000 + 500 + i,
@@ -209,6 +209,8 @@ def options(rng, opt, n):
         o["k_filter"] = False
     elif opt == 5:
         o["nc_out"] = n      # without the sync column
+    elif opt == 6:
+        o["reject"] = True   # channel rejection: labels from detect_bad_channels_cbin, interpolation + exclusion of outside-brain channels
     return o
 
 
@@ -282,7 +284,8 @@ def run_case(case):
             # ---------------- harness reference
             if img1 is not None and img1.shape[0] == total_rows:
                 sr = spikeglx.Reader(b)
-                ref, _ = reference(V, F, sr, rec, nbatch, opts.get("k_filter", True), opts.get("wrot"), None, nc_out, ns2add, sr.geometry)
+                labels = V.detect_bad_channels_cbin(sr) if opts.get("reject") else None
+                ref, _ = reference(V, F, sr, rec, nbatch, opts.get("k_filter", True), opts.get("wrot"), labels, nc_out, ns2add, sr.geometry)
                 sr.close()
                 # the code casts by truncation: compare integers with integers (two values closer than 1 truncate to integers at most 1 apart)
                 dev = np.max(np.abs(img1[:, :n].astype(np.float64) - np.trunc(np.clip(ref[:, :n], -32768, 32767))))
